@@ -36,6 +36,8 @@ def gen_value(rng, cls, star=False):
     if cls in ("MaxPlus", "Log"):
         if r < 0.15:
             return "-inf"
+        if 0.15 <= r < 0.3 and not star:   # magnitudes far apart (long-string log-probabilities next to O(1) weights)
+            return fs(Fraction(rng.choice([-800, -1500, -745, -710, -40, 700, -3000]) * 8 + rng.randint(-7, 7), 8))
         if star:
             return fs(-abs(fr(rng)) - (Fraction(1, 8) if cls == "Log" else 0))
         return fs(Fraction(0) if r < 0.25 else fr(rng))
